@@ -75,6 +75,9 @@ def cases(tier, seed):
                 if tier == 'quick' and k % 5 != 1:
                     continue
                 yield dict(kind='system', env=case['env'], f=f, lam=lam, pts=pts, st=st)
+                if k % 10 == 1 or tier != 'quick':
+                    # explicit tags that are neither 1..N nor in listing order (per-object attachment goes by tag)
+                    yield dict(kind='system', env=case['env'], f=f, lam=lam, pts=pts, st=st, tags=[(7, 2, 5)[i] for i in range(len(st))])
 
 
 def evaluate(c):
@@ -295,11 +298,11 @@ def evaluate(c):
                 chk('CLI-LOAD-VALUE', abs(z - zz) / abs(zz), 1e-12, '--load=%s acts as %s' % (txt, z))
     elif k == 'system':
         pts = [np.array(p) for p in c['pts']]
-        case = dict(f=c['f'], env=c['env'], wires=[geom.wire(pts[e['a']], pts[e['b']], e['n'], e['r']) for e in c['st']])
+        case = dict(f=c['f'], env=c['env'], wires=[geom.wire(pts[e['a']], pts[e['b']], e['n'], e['r'], tag=(c['tags'][i] if c.get('tags') else None)) for i, e in enumerate(c['st'])])
         f = c['f']
         m0 = geom.build(case)
         N = len(m0.pulses)
-        und = sorted((e['a'], e['b'], e['n']) for e in c['st'])
+        und = sorted((e['a'], e['b'], e['n']) for e in c['st']) + (['tags'] if c.get('tags') else [])
 
         def zin(p, loads=(), dist=None, attach=None):
             m = geom.build(case)
